@@ -1218,9 +1218,9 @@ class PG(G):
     # ---- functions
     def gen_func(self, name):
         r = self.rng
-        kind = r.choice(["rec", "str", "map", "free", "arr"])
+        kind = r.choice(["rec", "str", "map", "free", "arr", "nest2", "nest3"])
         saved = (self.allow_rec, self.assigned, self.in_func, self.ret_type, self.nest, self.loop_depth)
-        self.params = {"i0", "i1", "s0", "m0", "a0"}
+        self.params = {"i0", "i1", "i2", "s0", "m0", "a0"}
         self.allow_rec = False
         self.in_func = True
         self.nest = 1
@@ -1240,6 +1240,32 @@ class PG(G):
                 sig = (["int"], "int")
                 # keep recursion arguments small
                 sig = (["smallint"], "int")
+            elif kind in ("nest2", "nest3"):
+                # recursion nested inside the arguments of a call to the same function (decreasing first argument)
+                typed = r.random() < 0.4
+                t = "int" if typed else None
+                self.assigned = {"i0", "i1"}
+                self.ret_type = "int"
+                dec = ("bin", "-", ("local", "i0"), ("int", 1))
+                op = r.choice(["+", "-", "*"])
+                k = r.randint(1, 3)
+                if kind == "nest2":
+                    inner = ("ucall", name, [dec, ("bin", op, ("local", "i1"), ("int", k))])
+                    outer = r.choice([("ucall", name, [dec, inner]),
+                                      ("ucall", name, [dec, ("bin", "+", inner, ("ucall", name, [dec, ("local", "i0")]))])])
+                    params = [(t, "i0"), (t, "i1")]
+                    sig = (["tinyint", "int"], "int")
+                else:
+                    inner = ("ucall", name, [dec, ("local", "i2"), ("bin", op, ("local", "i1"), ("int", k))])
+                    outer = r.choice([("ucall", name, [dec, ("local", "i1"), inner]), ("ucall", name, [dec, inner, ("local", "i2")]),
+                                      ("ucall", name, [dec, inner, ("ucall", name, [dec, ("local", "i2"), ("local", "i1")])])])
+                    params = [(t, "i0"), (t, "i1"), (t, "i2")]
+                    sig = (["tinyint", "int", "int"], "int")
+                    self.assigned.add("i2")
+                body = [("if", [(("bin", "<=", ("local", "i0"), ("int", 0)), [("return", ("bin", "+", ("local", "i1"), ("int", r.randint(0, 3))))])], None)]
+                body += self.block(0, 1)
+                body += [("return", outer)]
+                fn = ("func", name, params, "int" if typed else None, body)
             elif kind == "str":
                 self.assigned = {"s0", "i0"}
                 self.ret_type = "str"
@@ -1273,6 +1299,8 @@ class PG(G):
     def expr(self, ty, d=None):
         if ty == "smallint":
             return ("int", self.rng.randint(0, 5))
+        if ty == "tinyint":
+            return ("int", self.rng.randint(0, 3)) if self.rng.random() < 0.7 or not self.allow_rec else ("bin", "%", ("field", "i"), ("int", 4))
         if ty == "arr1":
             return ("arr", [self.int_lit() for _ in range(self.rng.randint(1, 3))]) if self.rng.random() < 0.5 or "a0" not in self.assigned else ("local", "a0")
         return G.expr(self, ty, d)
